@@ -22,6 +22,8 @@ RULES = {
           'without generator=.  Allowed: the normalisers get_numpy_rng/get_random_rng, and the `if seed is None` arm.',
     'S4': 'S4: the receiver of every generator-method draw (.normal/.uniform/.integers/.choice/.random/.randint/'
           '.permutation/.shuffle/.standard_normal/...) in a seed-accepting function is derived from the seed on every path.',
+    'S6': 'S6: a seed parameter is never tested by truthiness (`if seed`, `seed or x`, `x if seed else y`, `not seed`): 0 is a '
+          'legitimate seed and must not take the unseeded branch; only `is None` / isinstance tests are admissible.',
     'S5': 'S5: draw-bound convention: random.Random.randint(a,b) is inclusive, numpy Generator.integers(a,b) exclusive; '
           'a draw used to index a container L has bound len(L) (Generator) / len(L)-1 (Random); a mixed-radix digit for '
           'base x has bound x-1 (Random.randint) / x (Generator.integers, Random.randrange).',
@@ -439,6 +441,37 @@ def _offset_from(expr, base_dump):
             and isinstance(expr.right, ast.Constant) and isinstance(expr.right.value, int):
         return expr.right.value if isinstance(expr.op, ast.Add) else -expr.right.value
     return None
+
+
+def s6(proj, rep, modules=None):
+    rep.rule('S6', RULES['S6'])
+    n = 0
+    for fi in proj.iter_functions(modules):
+        sp = set(seed_params(fi)) - {'np_rng', 'rng'}
+        if not sp:
+            continue
+        n += 1
+        m = fi.module
+        bad = False
+        for node in ast.walk(fi.node):
+            tests = []
+            if isinstance(node, (ast.If, ast.IfExp, ast.While)):
+                tests.append(node.test)
+            elif isinstance(node, ast.BoolOp):
+                tests.extend(node.values[:-1] if isinstance(node.op, (ast.Or, ast.And)) else [])
+            elif isinstance(node, ast.UnaryOp) and isinstance(node.op, ast.Not):
+                tests.append(node.operand)
+            elif isinstance(node, ast.Assert):
+                tests.append(node.test)
+            for t in tests:
+                if isinstance(t, ast.Name) and t.id in sp:
+                    bad = True
+                    rep.violation('S6', fi.qual, f'seed parameter `{t.id}` is tested by truthiness in `{ast.unparse(node)[:70]}`: seed 0 takes '
+                                  f'the same branch as None (unseeded)', m, node)
+        if not bad:
+            rep.ok('S6', fi.qual, 'seed parameter only tested with `is None` / isinstance', m, fi.node, text=f'{fi.qual} seed tests')
+    rep.count('S6.functions', n)
+    return n
 
 
 def s5(proj, rep, modules=None):
